@@ -1,7 +1,4 @@
 SPECIFICATION Spec
 CONSTANTS
-  MaxC = 3
-  MaxV = 2
-  MaxT = 4
-  MaxP = 2
+  MaxLen = 5
 CHECK_DEADLOCK FALSE
